@@ -3,6 +3,7 @@ import Nv.Proofs.C16Sess
 import Nv.Proofs.C16Term
 import Nv.Proofs.C16Flush
 import Nv.Proofs.C16World
+import Nv.Proofs.C16Conf
 /-!
 C16 — property theorems for `stcp.Session`, `SessionMgr.count` and the accept loop (model: `Nv.Model.C16`).
 
@@ -175,6 +176,38 @@ theorem event_ends_session {c : Cfg} (hc : Proved c) (s : Sess) (hr : (sessLTS c
   rcases key _ _ h0 with h | h
   · exact Or.inl h
   · exact Or.inr (Or.inl h)
+
+/-- Schedule independence of one script step: from a quiescent reachable state, after one environment event, *every*
+    schedule of the two loops that runs until neither can move ends in the same state — the one the oracle computes
+    (`event c s e`). So the correspondence compares against the only possible outcome, not against one schedule. -/
+theorem event_schedule_independent {c : Cfg} (hc : Proved c) (s : Sess) (hr : (sessLTS c).Reach s) (hq : quiescent c s)
+    (e : Env) (as : List Act) (hi : ∀ a ∈ as, a.internal = true) (t : Sess)
+    (hrun : (sessLTS c).run (envStep s e) as = some t) (hqt : quiescent c t) : t = event c s e := by
+  have hS := sinv_env (sinv_reach hc s hr) e
+  have hK := norace_after_event (sess_terminal_state hc s hr hq) e
+  have irun_of_run : ∀ (as : List Act) (u t : Sess), (∀ a ∈ as, a.internal = true) →
+      (sessLTS c).run u as = some t → IRun u t := by
+    intro as
+    induction as with
+    | nil => intro u t _ h; simp [LTS.run] at h; subst h; exact IRun.refl _
+    | cons a as ih =>
+      intro u t hi h
+      simp only [LTS.run] at h
+      cases h1 : (sessLTS c).step u a with
+      | none => simp [h1] at h
+      | some u1 =>
+        simp only [h1] at h
+        have r := ih u1 t (fun b hb => hi b (by simp [hb])) h
+        have hia := hi a (by simp)
+        cases a with
+        | env e => simp [Act.internal] at hia
+        | sendStep => simp only [sessLTS] at h1; rw [step, sendStep_proved hc] at h1; exact IRun.send h1 r
+        | recvStep => simp only [sessLTS] at h1; rw [step, recvStep_proved hc] at h1; exact IRun.recv h1 r
+  have r1 := irun_of_run as _ t hi hrun
+  have n1 := (quiescent_proved hc t).1 hqt
+  have r2 : IRun (envStep s e) (event c s e) := irun_settleN hc _ _
+  have n2 := (quiescent_proved hc _).1 (settle_quiescent hc (envStep s e))
+  exact normal_unique _ _ _ _ (Nat.le_refl _) hS hK r1 n1 r2 n2
 
 /-! ### one session: flush before local close -/
 
@@ -407,6 +440,13 @@ example : let s := events Cfg.good Sess.init [.peerHold, .send [1], .send [2, 3]
     quiescent Cfg.good s ∧ ¬ ended s ∧ s.closes = 0 ∧ s.faulted = false := by decide
 example : let s := events Cfg.good Sess.init [.peerHold, .send [1], .send [2, 3], .send [4], .close, .send [9], .peerDrain]
     ended s ∧ s.closes ≠ 0 ∧ s.faulted = false ∧ s.delivered = [1, 2, 3, 4] ∧ s.accepted = [[1], [2, 3], [4]] := by decide
+
+/-- the peer closes while a write is blocked: both loops can move; the receive-first schedule ends where the oracle's
+    send-first schedule (`event`) ends -/
+example : let s := events Cfg.good Sess.init [.peerHold, .send [1], .send [2]]
+    quiescent Cfg.good s ∧
+    (sessLTS Cfg.good).run (envStep s .peerClose) [.recvStep, .recvStep, .sendStep, .sendStep] = some (event Cfg.good s .peerClose) ∧
+    quiescent Cfg.good (event Cfg.good s .peerClose) := by decide
 
 /-- three connection attempts against maxConn = 2, one session ends, a fourth attempt -/
 example : ((worldLTS Cfg.good 2).run { max := 2 }
